@@ -18,6 +18,8 @@ MEMBER = dict(cluster.MC["member-q"], Faults=["Member", "Drop", "Heartbeat", "Cl
 MUTANTS = [
     ("M_GrantTwice", ELECT, ["C02_VoteOnce"], ["C02", "C01"]),
     ("M_NoLogCheckOnVote", REPL, ["C05_LeaderCompleteness"], ["C05", "C01"]),
+    ("M_LogCheckIndexOnly", REPL, ["C05_LeaderCompleteness"], ["C05", "C04"]),
+    ("M_LogCheckTermOnly", REPL, ["C05_LeaderCompleteness"], ["C05", "C04"]),
     ("M_NoTermCheckOnCommit", REPL, ["C09_CommitRule"], ["C09", "C05"]),
     ("M_MinorityCommit", REPL, ["C09_CommitRule"], ["C09", "C05", "C10"]),
     ("M_FollowerCommitNoMin", REPL, ["C07_FollowerCommitMatches"], ["C07", "C06"]),
@@ -30,11 +32,74 @@ MUTANTS = [
 ]
 H_DEFAULT = {"n": 3, "cap": 1}
 
+# Client-layer model (DEClient.tla / MC_client.tla), explored from the settled state after the first election.
+# PRE_LED is the schedule that takes real nodes to that state (TLC: configuration `settle`, depth 13).
+CLIENT = dict(Node="{1,2,3}", MaxTerm=3, MaxLog=3, MaxMsgs=6, Cap=100, Faults=["Client"], MaxCrash=0, MaxDrop=0, MaxReads=1)
+R_INVS = ["R_NoStaleRead", "R_AckAfterApply", "R_AckedIsCommitted", "R_ApplyBehindCommit"]
+CLIENT_MUTANTS = [
+    # (name, deviations switched on, invariants, properties whose checks replay the schedule)
+    ("M_NoApplyGate", ["M_NoApplyGate"], ["R_NoStaleRead"], ["C11", "C10"]),
+    ("M_AckAtCommit", ["M_AckAtCommit"], ["R_AckAfterApply"], ["C29", "C10"]),
+    ("M_ReadBeforeNoop", ["M_ReadBeforeNoop"], ["R_NoStaleRead"], ["C11"]),
+    ("M_ReadIndexIsApplied", ["M_ReadIndexIsApplied"], ["R_NoStaleRead"], ["C11"]),
+    # as-implemented deviations: witnesses of known findings
+    ("dev_ReadServedOnApplyWithoutConfirmation", ["ReadServedOnApplyWithoutConfirmation"], ["R_NoStaleRead"], ["C11"]),
+    ("dev_AnyAckConfirmsReads", ["AnyAckConfirmsReads"], ["R_NoStaleRead"], ["C11"]),
+]
+
+
+def F(a, b):
+    return {"from": a, "to": b}
+
+
+PRE_LED = ([{"a": "LagAll"}, {"a": "Timeout", "n": 1}, {"a": "StartRound", "n": 1},
+            dict(a="DeliverVQ", **F(1, 2)), dict(a="DeliverVQ", **F(1, 3)),
+            dict(a="DeliverAE", **F(1, 2)), dict(a="DeliverAE", **F(1, 3)),
+            dict(a="DeliverAR", **F(2, 1)), dict(a="DeliverAR", **F(3, 1)), {"a": "Heartbeat", "n": 1},
+            dict(a="DeliverAE", **F(1, 2)), dict(a="DeliverAE", **F(1, 3)),
+            dict(a="DeliverAR", **F(2, 1)), dict(a="DeliverAR", **F(3, 1))])
+
+
+def client_steps(hist, tag):
+    """schedule of a DEClient behaviour: one key, distinguishable values"""
+    out, k = [], 0
+    for st in hist:
+        st = dict(st)
+        if st.get("a") == "Client":
+            st["key"] = "k1"
+            if st.get("op") == "put":
+                k += 1
+                st["val"] = "%s_%d" % (tag, k)
+        out.append(st)
+    return out
+
+
+def gen_client(wd, outdir, only):
+    for name, dev, invs, props in CLIENT_MUTANTS:
+        if only and name not in only:
+            continue
+        cfg = cluster.mc_client_cfg(wd, name, CLIENT, dev, invs, hist=True)
+        tj = os.path.join(wd, name + ".trace.json")
+        rc, out, dt = dv.tlc("MC_client", cfg, wd, workers=8, extra=["-dumpTrace", "json", tj], timeout=2400)
+        if not os.path.exists(tj):
+            print(name, "no counterexample (%.0fs)" % dt, dv.tlc_stats(out))
+            continue
+        states = json.load(open(tj))["counterexample"]["state"]
+        last = states[-1]
+        last = last[1] if isinstance(last, list) else last
+        steps = PRE_LED + client_steps(last["hist"], "w" + name[-4:])
+        w = {"id": "gen-" + name, "cfg": {"n": 3, "cap": 100}, "props": props, "steps": steps,
+             "origin": "shortest TLC counterexample of %s in DEClient.tla (from the settled state) with %s switched on"
+                       % ("/".join(invs), ",".join(dev))}
+        json.dump(w, open(os.path.join(outdir, "gen_%s.json" % name), "w"))
+        print(name, "->", len(steps), "steps (%.0fs)" % dt)
+
 
 def main():
     wd = dv.workdir("genwit")
     outdir = os.path.join(dv.ROOT, "witness", "cluster")
     only = sys.argv[1:]
+    gen_client(wd, outdir, only)
     for name, consts, invs, props in MUTANTS:
         if only and name not in only:
             continue
